@@ -322,7 +322,10 @@ func c30RecvRun(in c30RecvIn) (V, Verdict) {
 		panic(err)
 	}
 	defer func() { _ = pc.Close() }()
-	ntracks := len(webrtc.VerifC30TrackDetailsFromSDP(s))
+	ntracks := 0
+	if p, site, msg := c30Catch(func() { ntracks = len(webrtc.VerifC30TrackDetailsFromSDP(s)) }); p {
+		return c30PanicV(), Fail("panic-trackDetailsFromSDP-at-"+site, msg)
+	}
 	if p, site, msg := c30Catch(func() { pc.VerifC30StartRTPReceiversWith(s, webrtc.SDPTypeOffer) }); p {
 		return c30PanicV(), Fail("panic-startRTPReceivers-at-"+site, msg)
 	}
